@@ -42,7 +42,8 @@ class HTTPSConnectionModifier(ImportedCallModifier[Set[str]]):
 
     def count_positional_args(self, arglist: Sequence[cst.Arg]) -> int:
         for idx, arg in enumerate(arglist):
-            if arg.keyword:
+            # `**kwargs` has no keyword either, but it is not a positional argument
+            if arg.keyword or arg.star == "**":
                 return idx
         return len(arglist)
 
